@@ -722,6 +722,61 @@ mod conversions {
     }
 }
 
+// ---------------------------------------------------------------- C09: histories of renders sharing one parser
+fn render_history(w: &serde_json::Value) -> (bool, String) {
+    let w = w.clone();
+    let r = panic::catch_unwind(move || -> Result<usize, String> {
+        let templates: Vec<String> = w["templates"].as_array().map(|a| a.iter().filter_map(|x| x.as_str().map(|s| s.to_owned())).collect()).unwrap_or_default();
+        let datas: Vec<serde_json::Value> = w["datas"].as_array().cloned().unwrap_or_default();
+        let k = w.get("length").and_then(|x| x.as_u64()).unwrap_or(3) as usize;
+        let partials = w.get("partials").cloned();
+        let shared = build_parser(partials.as_ref())?;
+        let compiled: Vec<Option<liquid::Template>> = templates.iter().map(|t| shared.parse(t).ok()).collect();
+        let objs: Vec<liquid::Object> = datas.iter().map(|d| serde_json::from_value(d.clone()).unwrap_or_default()).collect();
+        // reference: every (template, data) on a freshly built parser
+        let mut reference: Vec<Vec<std::result::Result<String, String>>> = vec![];
+        for t in &templates {
+            let mut row = vec![];
+            for o in &objs {
+                let fresh = build_parser(partials.as_ref())?;
+                row.push(match fresh.parse(t) { Ok(tp) => tp.render(o).map_err(|e| format!("{e}").lines().next().unwrap_or("").to_owned()), Err(e) => Err(format!("parse {e}")) });
+            }
+            reference.push(row);
+        }
+        // all histories of length k over (template, data) calls, each call compared with the reference
+        let calls: Vec<(usize, usize)> = (0..templates.len()).flat_map(|a| (0..objs.len()).map(move |b| (a, b))).collect();
+        let mut n = 0;
+        let mut idx = vec![0usize; k];
+        loop {
+            for (step, &ci) in idx.iter().enumerate() {
+                let (ti, di) = calls[ci];
+                let got = match &compiled[ti] { Some(tp) => tp.render(&objs[di]).map_err(|e| format!("{e}").lines().next().unwrap_or("").to_owned()), None => Err("parse".to_owned()) };
+                let want = &reference[ti][di];
+                let same = match (&got, want) { (Ok(a), Ok(b)) => a == b, (Err(_), Err(_)) => true, _ => false };
+                n += 1;
+                if !same {
+                    let hist: Vec<String> = idx[..=step].iter().map(|&c| format!("render(template {}, data {})", calls[c].0, calls[c].1)).collect();
+                    return Err(format!("after the history [{}] the last call gives {:?}, a fresh parser gives {:?}", hist.join(", "), got, want));
+                }
+            }
+            // next history
+            let mut p = 0;
+            loop {
+                if p == k { return Ok(n); }
+                idx[p] += 1;
+                if idx[p] < calls.len() { break; }
+                idx[p] = 0;
+                p += 1;
+            }
+        }
+    });
+    match r {
+        Ok(Ok(n)) => (true, format!("{n} render calls in histories agree with a fresh parser")),
+        Ok(Err(e)) => (false, e),
+        Err(p) => (false, format!("PANIC {:?}", panic_msg(p))),
+    }
+}
+
 fn expect_holds(e: &serde_json::Value, res: &Res) -> bool {
     if let Some(s) = e.get("output").and_then(|s| s.as_str()) {
         matches!(res, Ok(Ok(o)) if o == s)
@@ -781,6 +836,7 @@ fn run(w: &serde_json::Value) -> (bool, String) {
             (holds, rs.iter().map(show).collect::<Vec<_>>().join(" vs "))
         }
         "sink_faults" => sink_faults(w),
+        "render_history" => render_history(w),
         "value_laws" => match panic::catch_unwind(value_laws::run) {
             Ok(Ok(n)) => (true, format!("{n} ordered pairs satisfy the equality/ordering laws")),
             Ok(Err(e)) => (false, e),
